@@ -31,7 +31,7 @@ RULE = ("case = (documented name, spelling in {as documented, all '_', all '-', 
         " Also: the data-home variable switched between loads of one process, a value starting with '~' (HOME redirected), the description tables through their public accessors, unpacked columns compared with the columns of the plain load."
         " Round-4 classes: TRAFFIC_WEAVER_DATA as a relative path (plain and ./nested) with a working directory other than the home directory.")
 REQUIRED_MONITORS = ["c18:bundled", "c18:remote", "c18:pinned_checksum_enforced", "c18:all_in_one_home",
-                     "c18:undocumented", "c18:default_home", "c18:substitution_wrapper", "c18:switch_home", "c18:tilde_home", "c18:relative_home", "c18:description_accessors"]
+                     "c18:undocumented", "c18:default_home", "c18:substitution_wrapper", "c18:switch_home", "c18:tilde_home", "c18:relative_home", "c18:description_accessors", "c18:threads"]
 ASSUMPTIONS = ["the served payloads are synthetic; what is observed is the loader's behaviour per name, not the remote files"]
 NPARTS = 12
 
@@ -39,7 +39,7 @@ NPARTS = 12
 def plan(tier, seed):
     specs = [{"kind": "names", "part": p, "parts": NPARTS} for p in range(NPARTS)]
     specs += [{"kind": "one_home"}, {"kind": "undocumented"}, {"kind": "default_home"}, {"kind": "switch_home"},
-              {"kind": "tilde_home"}]
+              {"kind": "tilde_home"}, {"kind": "threads"}]
     return specs
 
 
@@ -429,8 +429,70 @@ def _run_named_home(ctx, value, where, mon):
         shutil.rmtree(scratch, ignore_errors=True)
 
 
+def run_threads(ctx):
+    """several threads of one process request different names of one provider family at the same time (a thread pool
+    mapped over names on a cold cache): every request must get ITS data, and every name its own complete cache entry"""
+    names = [n for _t, n in _ds.documented_names() if not _ds.is_bundled(n)]
+    fams = {}
+    for n in names:
+        fams.setdefault(n.split("_")[0].rsplit("-", 1)[0] if n.startswith(("mix", "ams", "ix")) else n, []).append(n)
+    groups = {}
+    for n in names:
+        groups.setdefault(n[:6], []).append(n)
+    rng = ctx.rng("threads", 0)
+    for gi, (key, members) in enumerate(sorted(groups.items())):
+        if len(members) < 3:
+            continue
+        for rep in range(2 if ctx.tier == "quick" else 8):
+            pick = [members[i] for i in rng.choice(len(members), size=min(len(members), int(rng.integers(3, 7))), replace=False)]
+            scratch = _ds.scratch_root()
+            try:
+                home = os.path.join(scratch, "home")
+                os.mkdir(home)
+                steps = [{"op": "net", "default": "good"}, {"op": "parallel", "names": pick}, {"op": "listing"},
+                         {"op": "net", "default": "urlerror"}] + [{"op": "by_name", "name": n, "substitute": True} for n in pick]
+                rc, out, err = _ds.run_child({"home": home, "steps": steps}, scratch)
+                if out is None:
+                    raise RuntimeError("dataset child failed rc=%s: %s" % (rc, err))
+                res = out["results"]
+                par = res[1].get("parallel") or []
+                for j, n in enumerate(pick):
+                    cid = {"kind": "threads", "name": n, "together_with": pick, "seed": ctx.seed}
+                    ctx.judged()
+                    ctx.monitor("c18:threads")
+                    r = par[j] if j < len(par) else None
+                    if not r or r.get("outcome") != "ok":
+                        ctx.violation("documented_name_not_loadable_while_sibling_names_are_loading", cid,
+                                      {"exception": (r or {}).get("exc_type"), "message": (r or {}).get("exc_msg")})
+                        continue
+                    cap = r.get("captured") or []
+                    if len(cap) != 1 or not _ds.same_data(r["data"], _ds.expected_desc(cap[0]["url"], 40, False)):
+                        ctx.violation("remote_name_returned_other_data", cid, {"data": r.get("data"), "captured": cap})
+                        continue
+                    r2 = res[4 + j]
+                    if r2.get("outcome") != "ok" or r2["requests"] or not _ds.same_data(r2["data"], _ds.expected_desc(cap[0]["url"], 40, False)):
+                        ctx.violation("cached_dataset_not_served_without_network", cid,
+                                      {"outcome": r2.get("outcome"), "exception": r2.get("exc_type"), "requests": r2.get("requests")})
+                        continue
+                    ctx.nontriv("threads", n, rep)
+                # after all loads have finished the data home holds provider folders and one entry per loaded name
+                lst = res[2]["listing"]
+                n_dirs = len([e for e in lst if isinstance(e, str)])
+                n_files = len([e for e in lst if not isinstance(e, str)])
+                left = [e for e in lst if isinstance(e, str) and e.count("/") > 1] if n_files == len(pick) else \
+                    [e for e in lst if not isinstance(e, str)][len(pick):] or ["%d directories, %d files" % (n_dirs, n_files)]
+                if left:
+                    ctx.violation("temporary_files_left_after_concurrent_loads", {"kind": "threads", "names": pick, "seed": ctx.seed},
+                                  {"entries": left[:6]})
+            finally:
+                shutil.rmtree(scratch, ignore_errors=True)
+    ctx.sample({"threads": "3..6 names of one provider family loaded by as many threads of one process"})
+
+
 def run(ctx, spec):
     k = spec["kind"]
+    if k == "threads":
+        return run_threads(ctx)
     if k == "tilde_home":
         return run_tilde_home(ctx)
     if k == "switch_home":
@@ -447,6 +509,8 @@ def run(ctx, spec):
 
 def replay(ctx, case):
     k = case["kind"]
+    if k == "threads":
+        return run_threads(ctx)
     if k == "tilde_home":
         return run_tilde_home(ctx)
     if k == "switch_home":
